@@ -70,7 +70,7 @@ def kit_classes():
 
 def role_of(cls):
     from moclo.core import AbstractVector
-    return "vector" if issubclass(cls, AbstractVector) else "module"
+    return "vector" if AbstractVector in cls.__mro__ else "module"     # (not issubclass: ABC caches are slow with many dynamic classes)
 
 
 def generic_spec_for(cls):
@@ -81,7 +81,7 @@ def generic_spec_for(cls):
 def signature_typed(cls):
     """True when the class derives its structure from its signature (AbstractPart.structure)."""
     from moclo.core import AbstractPart
-    if not issubclass(cls, AbstractPart) or cls.signature is NotImplemented:
+    if AbstractPart not in cls.__mro__ or cls.signature is NotImplemented:
         return False
     f = cls.structure.__func__ if hasattr(cls.structure, "__func__") else cls.structure
     impl = None
